@@ -1225,7 +1225,7 @@ def multiindex_strategy(
         index=pdst.range_indexes(
             min_size=0 if size is None else size, max_size=size
         ),
-    ).map(partial(convert_dtypes, col_dtypes=index_dtypes))
+    )
 
     # this is a hack to convert np.str_ data values into native python str.
     for name, dtype in index_dtypes.items():
@@ -1234,6 +1234,8 @@ def multiindex_strategy(
             strategy = strategy.map(
                 lambda df, name=name: df.assign(**{name: df[name].map(str)})
             )
+
+    strategy = strategy.map(partial(convert_dtypes, col_dtypes=index_dtypes))
 
     if any(nullable_index.values()):
         strategy = null_dataframe_masks(strategy, nullable_index)
